@@ -850,6 +850,11 @@ impl<'w, 'a, 'b, 'c> World<'w, 'a, 'b, 'c> {
 				}
 				to_mine.push(tx);
 			}
+			if std::env::var("H_RESTART_DEBUG").is_ok() {
+				eprintln!("ONCHAIN round {} height {} mine {:?} deferred {:?}", _round, height,
+					to_mine.iter().map(|t| (t.compute_txid().to_string()[..8].to_string(), t.lock_time.to_consensus_u32(), t.input.len(), t.output.len())).collect::<Vec<_>>(),
+					deferred.iter().map(|t| t.lock_time.to_consensus_u32()).collect::<Vec<_>>());
+			}
 			for n in 0..nn {
 				if !to_mine.is_empty() {
 					let refs: Vec<&Transaction> = to_mine.iter().collect();
